@@ -1,9 +1,14 @@
 package main
 
 import (
+	"bytes"
 	"fmt"
+	"github.com/bbva/qed/balloon"
+	"github.com/bbva/qed/consensus"
+	"github.com/bbva/qed/crypto/hashing"
 	"os"
 	"strings"
+	"time"
 
 	"qedverif/cq"
 )
@@ -61,5 +66,90 @@ func restartCmd(out *cq.Out, seed uint64, tier string) {
 		}
 		os.RemoveAll(dir)
 	}
+	largeRestart(out, rng, seed, tier)
 	out.Sample(map[string]interface{}{"stop_points": points, "kind": "child process: single-node raft cluster, workload, Close(true), exit; three incarnations per point"})
+}
+
+// largeRestart: a log of more than 1000 events (the hyper cache table then spans several reader pages), a clean
+// stop, and a reopen: everything served afterwards equals what a twin that was never stopped serves.
+func largeRestart(out *cq.Out, rng *cq.Rng, seed uint64, tier string) {
+	rounds := 1
+	if tier == "thorough" {
+		rounds = 3
+	}
+	for r := 0; r < rounds; r++ {
+		lg := genLog(rng, fmt.Sprintf("bigrs%d", r), 5+rng.Intn(3))
+		tail := genLog(rng, fmt.Sprintf("tail%d", r), 3)
+		dir, _ := os.MkdirTemp(out.Dir, "bigrs")
+		desc := map[string]interface{}{"seed": seed, "large_log_round": r, "entries_before_stop": len(lg)}
+		out.Note(desc)
+		twin := openFSM(dir + "/twin")
+		n := openFSM(dir + "/db")
+		var snaps []*balloon.Snapshot
+		var events []hashing.Digest
+		for _, e := range lg {
+			s, _ := n.VApply(e.index, e.evs)
+			twin.VApply(e.index, e.evs)
+			snaps = append(snaps, s...)
+			events = append(events, e.evs...)
+		}
+		desc["events_before_stop"] = len(events)
+		if !withTimeout(60*time.Second, func() { n.VCloseFSM() }) {
+			out.Violate("C08:shutdown-does-not-complete", fmt.Sprintf("closing a node holding %d events did not return within 60 s", len(events)), desc)
+			continue
+		}
+		var n2 *consensus.RaftNode
+		if p, msg := cq.Catch(func() { n2 = openFSM(dir + "/db") }); p {
+			out.Violate("C08:reopen-panic", "reopening the node on its data panicked: "+msg, desc)
+			continue
+		}
+		if v := n2.VBalloonVersion(); v != uint64(len(events)) {
+			out.Violate("C08:version-after-reopen", fmt.Sprintf("after reopening the node reports %d events, %d were applied", v, len(events)), desc)
+		}
+		cur := uint64(len(events) - 1)
+		bad := ""
+		for t := 0; t < 40 && bad == ""; t++ {
+			k := rng.Intn(len(events))
+			q := uint64(k + rng.Intn(len(events)-k))
+			p, msg := cq.Catch(func() {
+				mp, err := n2.VBalloon().QueryDigestMembershipConsistency(events[k], q)
+				if err != nil || !mp.Exists || !mp.DigestVerify(events[k], &balloon.Snapshot{HistoryDigest: snaps[q].HistoryDigest, HyperDigest: snaps[cur].HyperDigest}) {
+					bad = fmt.Sprintf("the membership proof for event %d at version %d served after the reopen does not verify against the snapshots issued before the stop (err=%v)", k, q, err)
+				}
+			})
+			if p {
+				bad = "a membership query after the reopen failed internally: " + msg
+			}
+			out.Case(fmt.Sprintf("bigrs:%d:%d", r, t), k < int(q))
+		}
+		if bad != "" {
+			out.Violate("C08:diverges-from-never-stopped", bad, desc)
+		}
+		last := lg[len(lg)-1].index
+		for j, e := range tail {
+			var s1, s2 []*balloon.Snapshot
+			p, msg := cq.Catch(func() { s1, _ = n2.VApply(last+uint64(j)+1, e.evs) })
+			s2, _ = twin.VApply(last+uint64(j)+1, e.evs)
+			if p {
+				out.Violate("C08:diverges-from-never-stopped", "an insertion after the reopen failed internally: "+msg, desc)
+				break
+			}
+			same := len(s1) == len(s2)
+			for x := 0; same && x < len(s1); x++ {
+				same = s1[x].Version == s2[x].Version && bytes.Equal(s1[x].HistoryDigest, s2[x].HistoryDigest) && bytes.Equal(s1[x].HyperDigest, s2[x].HyperDigest)
+			}
+			if !same {
+				out.Violate("C08:diverges-from-never-stopped", fmt.Sprintf("insertion %d after the reopen returns snapshots that differ from those of a node that was never stopped", j), desc)
+				break
+			}
+		}
+		if fp, fq := tablesFP(n2.VStore()), tablesFP(twin.VStore()); fp != fq {
+			out.Violate("C08:diverges-from-never-stopped", "after the reopen and further insertions the stored tables differ from those of a node that was never stopped", desc)
+		}
+		out.Count("large_restarts", 1)
+		out.Count("large_restart_events", len(events))
+		n2.VCloseFSM()
+		twin.VCloseFSM()
+		os.RemoveAll(dir)
+	}
 }
